@@ -38,7 +38,8 @@ Inductive rop :=
 | RCollectOwner (hd : nat)
 | RCollectObj (o : oid)
 | RSetLink (o : oid) (f : fname) (v : list oid)
-| RSetItems (c : oid) (v removed added : list oid) (fired : bool).
+| RSetItems (c : oid) (v removed added : list oid) (fired : bool)
+| RAddTrait (o : oid) (f : fname) (v : list oid).
 Record riobs := mkRI { r_out : option exn; r_calls : list nat; r_snap : rsnap; r_dead : option bool }.
 
 Record case := mkCase {
@@ -67,6 +68,7 @@ Definition op_of (gt : list graph) (o : rop) : dop :=
   | RCollectObj o => DStatic (CollectObj o)
   | RSetLink o f v => DSetLink o f v
   | RSetItems c v removed added fired => DSetItems c v removed added fired
+  | RAddTrait o f v => DAddTrait o f v
   end.
 Definition iobs_of (gt : list graph) (r : riobs) : iobs :=
   mkI (r_out r) (r_calls r) (snap_of gt (r_snap r)) (r_dead r).
@@ -112,6 +114,7 @@ Definition lstep_of (h : heap) (o : dop) : lstep * heap :=
   | DStatic o' => (LStatic o', h)
   | DSetLink x f v => let h' := set_links h x f v in (LMut h', h')
   | DSetItems c v _ _ _ => let h' := set_items h c v in (LMut h', h')
+  | DAddTrait x f v => let h' := add_trait_h h x f v in (LMut h', h')
   end.
 Fixpoint lhist_of (h : heap) (hist : list (dop * iobs)) : list (lstep * iobs) :=
   match hist with
